@@ -19,9 +19,8 @@ import warnings
 
 import numpy as np
 
-from .. import tlc as T
 from ..ctx import MachineryError
-from ..snap import OFFGRID, qdiff, snap_garray, snap_gint, snap_int
+from ..snap import OFFGRID, qdiff, snap_garray, snap_int
 from . import c09_util as U
 
 BIG = 2 ** 30
@@ -535,7 +534,6 @@ class World:
                 c = oa.copy()
                 got["ret"] = c.normalize(insert=r.choice([None, 0]))
                 return c
-            rec_ret = {}
             name = self.op("normalize", [a], f, "mps", out=False, scale_out=n2 ** 0.5, ret=0)
             # the returned old norm is part of the last record
             last = self.recs[-1]
@@ -942,13 +940,6 @@ def multilayer_campaign(seed, tid, dtype, methods, ncombos):
 
 
 # ----------------------------------------------------------------------------- S->C replays
-GEN_PRODUCTS = {
-    # fixed single-site data of the model's constants (C09_MPSAlgebra.tla: PVecs / PMats), per site index mod 2
-    "P": [[(1, 0), (2, 1)], [(0, 1), (1, -1)], [(2, 0), (-1, 1)]],
-    "Q": [[(1, 1), (0, -1)], [(2, 0), (1, 0)], [(-1, 0), (1, 2)]],
-}
-
-
 def replay_algebra(beh, tid, dtype, rng):
     """beh: list of model steps [{op, args, out, ...}] from C09_MPSAlgebra's history variable"""
     import quimb.tensor as qtn
@@ -1120,7 +1111,7 @@ def run(ctx):
     ctx.extra["model_compress_cases"] = len(cases)
 
     # C->S 1: random histories of arithmetic / queries
-    nwalk, nsteps = (90, 22) if quick else (500, 35)
+    nwalk, nsteps = (90, 22) if quick else (700, 35)
     skipped = 0
     for k in range(nwalk):
         w = algebra_walk(100000 * (seed + 1) + k, ntr, nsteps, dtypes[k % 4])
@@ -1132,7 +1123,7 @@ def run(ctx):
 
     lap("walks")
     # C->S 2: compression campaigns
-    ncamp, ncomb = (18, 46) if quick else (50, None)
+    ncamp, ncomb = (18, 46) if quick else (70, None)
     for k in range(ncamp):
         kind = "mps" if k % 3 != 2 else "mpo"
         w = compress_campaign(200000 * (seed + 1) + k, ntr, kind, dtypes[k % 4] if k % 2 else "complex128", ncomb, methods)
@@ -1162,7 +1153,7 @@ def run(ctx):
     fails = ctx.validate("C09_Trace", "Trace.cfg", recs, name="c09", ntraces=ntr, chunk=6000)
     lap("validate")
     ctx.clauses.update(["Returns", "OnGrid", "WellFormed", "GeneratorExact", "RoundTrip", "ToDenseExact", "ShapeExact", "SumExact",
-                        "ScaleExact", "ConjExact", "ValueUnchanged", "ApplyExact", "TransposeExact", "PartialTraceExact", "FillExact",
+                        "ScaleExact", "ConjExact", "ValueUnchanged", "ApplyExact", "TransposeExact", "PartialTraceExact", "FillExact", "PartialTraceExact.Transposed", "WellTyped",
                         "NormalizeExact", "NormReturned", "OverlapExact", "NormExact", "ExpecExact", "TraceExact", "AmplitudeExact",
                         "BondCap", "BondSizesHonest", "Untruncated", "CentreWherePromised", "ErrorBound",
                         "model: Denotes QueryExact BondBook (C09_MPSAlgebra)", "model: BondCap CentreWherePromised ValueKept (C09_Compress)"])
